@@ -203,6 +203,10 @@ impl<T> ResourceController<T> {
 	}
 
 	pub fn try_reserve(&self) -> Result<Key, ResourceLimitReached> {
+		// an arena without slots cannot be asked for one
+		if self.arena_controller.capacity() == 0 {
+			return Err(ResourceLimitReached);
+		}
 		self.arena_controller
 			.try_reserve()
 			.map_err(|_| ResourceLimitReached)
